@@ -25,7 +25,7 @@ impl SubCheck for BfsOrder {
         p.max_n = tier.pick(30, 80);
         p.max_deg = 4;
         p.shapes = vec![(4, Shape::Uniform), (3, Shape::Dag(4)), (2, Shape::Cyclic), (1, Shape::Comb), (1, Shape::Forest)];
-        graph_strategy(p).prop_map(|g| GCase { g, cfg: RunCfg::plain(Strat::Bfs, 1) }).boxed()
+        (graph_strategy(p), block_strategy()).prop_map(|(g, block)| GCase { g, cfg: RunCfg::plain(Strat::Bfs, 1).with_block(block) }).boxed()
     }
     fn check(&self, case: &GCase, cov: &mut Cov) -> Result<(), Fail> {
         let g = &case.g;
